@@ -856,4 +856,791 @@ theorem outRaw_parts (v : Int) (hv : byteLen v.natAbs < 2 ^ 31) (rest : List Nat
   · rw [hna, e, ← List.append_assoc, List.drop_append_of_le_length (by simp [hh]), List.drop_of_length_le (by simp [hh])]
     simp
 
+/-! ### export: the EXTRACT accumulator -/
+
+/-- the part of the operand not yet emitted -/
+def XSt.R (s : XSt) : Nat := s.limb + 2 ^ s.lbits * val s.zp
+/-- `limb` holds exactly `lbits` bits -/
+def XSt.Inv (s : XSt) : Prop := s.limb < 2 ^ s.lbits ∧ Limbs s.zp
+
+theorem val_headD_tail (l : List Nat) : val l = l.headD 0 + B * val l.tail := by
+  cases l <;> simp
+
+theorem or_shift_eq_add {a q l : Nat} (h : a < 2 ^ l) : a ||| (q <<< l) = a + q * 2 ^ l := by
+  rw [Nat.or_comm, ← Nat.shiftLeft_add_eq_or_of_lt h, Nat.shiftLeft_eq]; ring
+
+/-- `(W << l) mod 2^64` is `(W mod 2^(64-l)) << l` -/
+theorem shl_mod_B {W l : Nat} (hl : l ≤ 64) : (W <<< l) % B = (W % 2 ^ (64 - l)) <<< l := by
+  rw [Nat.shiftLeft_eq, Nat.shiftLeft_eq, B_eq_2]
+  have : (2 : Nat) ^ 64 = 2 ^ (64 - l) * 2 ^ l := by rw [← pow_add]; congr 1; omega
+  rw [this, Nat.mul_mod_mul_right]
+
+theorem extract_spec {N : Nat} (hN1 : 1 ≤ N) (hN8 : N ≤ 8) (s : XSt) (h : s.Inv) :
+    (extract N s).1 = s.R % 2 ^ N ∧ (extract N s).2.R = s.R / 2 ^ N ∧ (extract N s).2.Inv := by
+  obtain ⟨hl, hz⟩ := h
+  unfold extract
+  by_cases hc : s.lbits ≥ N
+  · simp only [hc, if_true]
+    obtain ⟨k, hk⟩ : ∃ k, s.lbits = N + k := ⟨s.lbits - N, by omega⟩
+    have hp : 2 ^ s.lbits = 2 ^ N * 2 ^ k := by rw [hk, pow_add]
+    have hR : s.R = s.limb + 2 ^ N * (2 ^ k * val s.zp) := by unfold XSt.R; rw [hp]; ring
+    refine ⟨?_, ?_, ?_, hz⟩
+    · rw [hR, Nat.add_mul_mod_self_left]
+    · simp only [XSt.R]
+      rw [show s.limb + 2 ^ s.lbits * val s.zp = s.limb + 2 ^ N * (2 ^ k * val s.zp) from by rw [hp]; ring,
+        Nat.add_mul_div_left _ _ (pow_pos (by decide) N), Nat.shiftRight_eq_div_pow]
+      congr 2; congr 1; omega
+    · simp only
+      rw [Nat.shiftRight_eq_div_pow, Nat.div_lt_iff_lt_mul (pow_pos (by decide) N)]
+      have : s.lbits - N = k := by omega
+      rw [this, Nat.mul_comm, ← hp]; exact hl
+  · simp only [hc, if_false]
+    have hlt : s.lbits < N := by omega
+    obtain ⟨j, hj⟩ : ∃ j, N = s.lbits + j := ⟨N - s.lbits, by omega⟩
+    have hj1 : 1 ≤ j := by omega
+    set W := s.zp.headD 0 with hW
+    set l := s.lbits with hll
+    have hWB : W < B := by
+      cases hzp : s.zp with
+      | nil => simp [hW, hzp]; exact B_pos
+      | cons a t => rw [hzp] at hz; simp [hW, hzp]; exact (Limbs_cons.mp hz).1
+    have htailL : Limbs s.zp.tail := by
+      cases hzp : s.zp with
+      | nil => simp [Limbs_nil]
+      | cons a t => rw [hzp] at hz; simpa using (Limbs_cons.mp hz).2
+    have hv := val_headD_tail s.zp
+    rw [← hW] at hv
+    -- the emitted bits
+    have hp : 2 ^ N = 2 ^ l * 2 ^ j := by rw [hj, pow_add]
+    have hB : B = 2 ^ j * 2 ^ (64 - j) := by rw [B_eq_2, ← pow_add]; congr 1; omega
+    have hsh : (W <<< l) % B = (W % 2 ^ (64 - l)) * 2 ^ l := by rw [shl_mod_B (by omega), Nat.shiftLeft_eq]
+    have hor : s.limb ||| (W <<< l) % B = s.limb + (W % 2 ^ (64 - l)) * 2 ^ l := by
+      rw [shl_mod_B (by omega)]; exact or_shift_eq_add hl
+    have hmodj : W % 2 ^ (64 - l) % 2 ^ j = W % 2 ^ j :=
+      Nat.mod_mod_of_dvd _ (pow_dvd_pow 2 (by omega))
+    have key : ∀ X : Nat, (s.limb + X * 2 ^ l) % 2 ^ N = s.limb + 2 ^ l * (X % 2 ^ j) := by
+      intro X
+      rw [hp, Nat.mod_mul]
+      have h1 : (s.limb + X * 2 ^ l) % 2 ^ l = s.limb := by
+        rw [Nat.add_mul_mod_self_right]; exact Nat.mod_eq_of_lt hl
+      have h2 : (s.limb + X * 2 ^ l) / 2 ^ l = X := by
+        rw [Nat.add_mul_div_right _ _ (pow_pos (by decide) l), Nat.div_eq_of_lt hl, Nat.zero_add]
+      rw [h1, h2]
+    have hRX : s.R = s.limb + (W + B * val s.zp.tail) * 2 ^ l := by unfold XSt.R; rw [hv]; ring
+    refine ⟨?_, ?_, ?_, htailL⟩
+    · rw [hor, key, hRX, key, hmodj]
+      congr 2
+      rw [hB, Nat.mul_assoc, Nat.add_mul_mod_self_left]
+    · simp only [XSt.R]
+      rw [show s.limb + 2 ^ l * val s.zp = s.limb + (W + B * val s.zp.tail) * 2 ^ l from by rw [hv]; ring,
+        hp, ← Nat.div_div_eq_div_mul,
+        Nat.add_mul_div_right _ _ (pow_pos (by decide) l), Nat.div_eq_of_lt hl, Nat.zero_add,
+        Nat.shiftRight_eq_div_pow]
+      have e1 : N - l = j := by omega
+      have e2 : l + 64 - N = 64 - j := by omega
+      rw [e1, e2]
+      conv_rhs => rw [hB]
+      rw [Nat.mul_assoc, Nat.add_mul_div_left _ _ (pow_pos (by decide) j)]
+    · simp only
+      rw [Nat.shiftRight_eq_div_pow]
+      have e1 : N - l = j := by omega
+      have e2 : l + 64 - N = 64 - j := by omega
+      rw [e1, e2, Nat.div_lt_iff_lt_mul (pow_pos (by decide) j), Nat.mul_comm, ← hB]; exact hWB
+
+theorem extractN8_spec (k : Nat) : ∀ (s : XSt), s.Inv →
+    (extractN 8 k s).1 = leBytes k s.R ∧ (extractN 8 k s).2.R = s.R / 256 ^ k ∧ (extractN 8 k s).2.Inv := by
+  induction k with
+  | zero => intro s h; simp [extractN, leBytes, h]
+  | succ k ih =>
+    intro s h
+    obtain ⟨e1, e2, e3⟩ := extract_spec (N := 8) (by decide) (by decide) s h
+    obtain ⟨f1, f2, f3⟩ := ih _ e3
+    simp only [extractN, leBytes]
+    refine ⟨?_, ?_, f3⟩
+    · rw [e1, f1, e2]; norm_num
+    · rw [f2, e2, Nat.div_div_eq_div_mul]; congr 1; norm_num; ring
+
+/-- the bytes of one word: `w` whole bytes, a partial byte of `b < 8` bits, zero fill -/
+theorem word_bytes (R w b m : Nat) (hb : b < 8) (hm : (if b ≠ 0 then 1 else 0) ≤ m) :
+    leBytes (w + m) (R % 2 ^ (8 * w + b)) =
+      leBytes w R ++ (if b ≠ 0 then [R / 256 ^ w % 2 ^ b] else []) ++
+        List.replicate (m - (if b ≠ 0 then 1 else 0)) 0 := by
+  have hp : 2 ^ (8 * w + b) = 256 ^ w * 2 ^ b := by
+    rw [pow_add, pow_mul]; norm_num
+  rw [leBytes_add]
+  have h1 : leBytes w (R % 2 ^ (8 * w + b)) = leBytes w R := by
+    conv_rhs => rw [← Nat.mod_add_div R (2 ^ (8 * w + b)), hp, Nat.mul_assoc, leBytes_add_mul]
+    rw [hp]
+  have h2 : R % 2 ^ (8 * w + b) / 256 ^ w = R / 256 ^ w % 2 ^ b := by
+    rw [hp, Nat.mod_mul_right_div_self]
+  rw [h1, h2, List.append_assoc]
+  congr 1
+  by_cases hb0 : b = 0
+  · subst hb0; simp [Nat.mod_one, leBytes_zero]
+  · simp only [hb0, ne_eq, not_false_eq_true, if_true] at hm ⊢
+    obtain ⟨m', rfl⟩ : ∃ m', m = m' + 1 := ⟨m - 1, by omega⟩
+    have hu : R / 256 ^ w % 2 ^ b < 128 := by
+      have : 2 ^ b ≤ 2 ^ 7 := Nat.pow_le_pow_right (by decide) (by omega)
+      have := Nat.mod_lt (R / 256 ^ w) (pow_pos (by decide : 0 < 2) b)
+      omega
+    simp only [leBytes, List.singleton_append, Nat.add_sub_cancel]
+    rw [Nat.mod_eq_of_lt (a := R / 256 ^ w % 2 ^ b) (b := 256) (by omega),
+      Nat.div_eq_of_lt (a := R / 256 ^ w % 2 ^ b) (b := 256) (by omega), leBytes_zero]
+
+theorem exportWord_spec (size wbytes wbits : Nat) (hb : wbits < 8)
+    (hs : wbytes + (if wbits ≠ 0 then 1 else 0) ≤ size) (s : XSt) (h : s.Inv) :
+    (exportWord size wbytes wbits s).1 = leBytes size (s.R % 2 ^ (8 * wbytes + wbits)) ∧
+    (exportWord size wbytes wbits s).2.R = s.R / 2 ^ (8 * wbytes + wbits) ∧
+    (exportWord size wbytes wbits s).2.Inv := by
+  obtain ⟨e1, e2, e3⟩ := extractN8_spec wbytes s h
+  have hsz : size = wbytes + (size - wbytes) := by omega
+  have hp : 2 ^ (8 * wbytes + wbits) = 256 ^ wbytes * 2 ^ wbits := by rw [pow_add, pow_mul]; norm_num
+  by_cases hb0 : wbits = 0
+  · subst hb0
+    have hw := word_bytes s.R wbytes 0 (size - wbytes) (by decide) (by simp)
+    rw [← hsz] at hw
+    simp only [exportWord, ne_eq, not_true_eq_false, if_false, List.length_nil, Nat.add_zero, List.append_nil,
+      Nat.sub_zero] at hw ⊢
+    refine ⟨by rw [hw, e1], by rw [e2]; simp [pow_mul], e3⟩
+  · obtain ⟨g1, g2, g3⟩ := extract_spec (N := wbits) (by omega) (by omega) _ e3
+    have hw := word_bytes s.R wbytes wbits (size - wbytes) hb (by rw [if_pos hb0] at hs ⊢; omega)
+    rw [← hsz] at hw
+    simp only [exportWord, hb0, ne_eq, not_false_eq_true, if_true, List.length_singleton] at hw ⊢
+    refine ⟨?_, ?_, g3⟩
+    · rw [hw, e1, g1, e2, Nat.sub_sub]
+    · rw [g2, e2, hp, Nat.div_div_eq_div_mul]
+
+theorem wordOf_succ (numb x i : Nat) : wordOf numb x (i + 1) = wordOf numb (x / 2 ^ numb) i := by
+  unfold wordOf; rw [Nat.mul_succ, pow_add, Nat.div_div_eq_div_mul, Nat.mul_comm]
+
+theorem wordOf_zero (numb x : Nat) : wordOf numb x 0 = x % 2 ^ numb := by simp [wordOf]
+
+theorem exportWords_spec (size wbytes wbits : Nat) (hb : wbits < 8)
+    (hs : wbytes + (if wbits ≠ 0 then 1 else 0) ≤ size) (c : Nat) : ∀ (s : XSt), s.Inv →
+    exportWords size wbytes wbits c s =
+      (List.range c).map (fun i => leBytes size (wordOf (8 * wbytes + wbits) s.R i)) := by
+  induction c with
+  | zero => intro s _; simp [exportWords]
+  | succ c ih =>
+    intro s h
+    obtain ⟨e1, e2, e3⟩ := exportWord_spec size wbytes wbits hb hs s h
+    simp only [exportWords]
+    rw [ih _ e3, e1, e2, List.range_succ_eq_map, List.map_cons, List.map_map, wordOf_zero]
+    congr 1
+    apply List.map_congr_left
+    intro i _
+    simp [wordOf_succ]
+
+/-! ### export: count, fast paths, the whole function -/
+
+theorem bitLen_val_normalized {zl : List Nat} (hL : Limbs zl) (hne : zl ≠ []) (htop : TopNZ zl) :
+    zl.length * 64 - clz (zl.getLastD 0) = bitLen (val zl) ∧ 0 < bitLen (val zl) := by
+  obtain ⟨init, hi⟩ := exists_snoc_of_getLastD hne
+  have ht0 := htop hne
+  have hLs := hL; rw [hi] at hLs
+  obtain ⟨hLi, hLt⟩ := Limbs_append.mp hLs
+  have htB : zl.getLastD 0 < B := hLt _ (by simp)
+  have hb := bitLen_val_snoc hLi ht0
+  rw [← hi] at hb
+  have h1 := bitLen_pos ht0
+  have h2 := bitLen_le_64 htB
+  have hlen : zl.length = init.length + 1 := by rw [hi]; simp
+  rw [hb]; unfold clz; omega
+
+theorem sizeinbase2exp_eq {zl : List Nat} (hL : Limbs zl) (hne : zl ≠ []) (htop : TopNZ zl) (numb : Nat) :
+    sizeinbase2exp zl numb = exportCount numb (val zl) := by
+  unfold sizeinbase2exp exportCount
+  rw [(bitLen_val_normalized hL hne htop).1]
+
+theorem wordOf64_cons {x : Nat} (hx : x < B) (V i : Nat) :
+    wordOf 64 (x + B * V) (i + 1) = wordOf 64 V i := by
+  rw [wordOf_succ, ← B_eq_2, Nat.add_mul_div_left _ _ B_pos, Nat.div_eq_of_lt hx, Nat.zero_add]
+
+theorem words64 : ∀ (zl : List Nat), Limbs zl →
+    (List.range zl.length).map (fun i => leBytes 8 (wordOf 64 (val zl) i)) = zl.map (leBytes 8) := by
+  intro zl
+  induction zl with
+  | nil => intro _; simp
+  | cons x xs ih =>
+    intro h
+    obtain ⟨hx, hxs⟩ := Limbs_cons.mp h
+    rw [List.length_cons, List.range_succ_eq_map, List.map_cons, List.map_map, List.map_cons, ← ih hxs]
+    congr 1
+    · rw [wordOf_zero, val_cons, ← B_eq_2, Nat.add_mul_mod_self_left, Nat.mod_eq_of_lt hx]
+    · apply List.map_congr_left
+      intro i _
+      simp only [Function.comp, val_cons]
+      rw [wordOf64_cons hx]
+
+theorem exportCount64 {zl : List Nat} (hL : Limbs zl) (hne : zl ≠ []) (htop : TopNZ zl) :
+    exportCount 64 (val zl) = zl.length := by
+  obtain ⟨h1, h2⟩ := bitLen_val_normalized hL hne htop
+  obtain ⟨init, hi⟩ := exists_snoc_of_getLastD hne
+  have ht0 := htop hne
+  have hLs := hL; rw [hi] at hLs
+  obtain ⟨hLi, hLt⟩ := Limbs_append.mp hLs
+  have htB : zl.getLastD 0 < B := hLt _ (by simp)
+  have hb := bitLen_val_snoc hLi ht0
+  rw [← hi] at hb
+  have := bitLen_pos ht0
+  have := bitLen_le_64 htB
+  have hlen : zl.length = init.length + 1 := by rw [hi]; simp
+  unfold exportCount; rw [hb, hlen]; omega
+
+theorem flatMap_eq_flatten_map (f : Nat → List Nat) (l : List Nat) : l.flatMap f = (l.map f).flatten := by
+  simp [List.flatMap]
+
+/-- `mpz_export` writes exactly the documented words -/
+theorem mpz_export_spec (order endian : Int) (size nail align : Nat) (zl : List Nat)
+    (ho : order = 1 ∨ order = -1) (he : endian = -1 ∨ endian = 0 ∨ endian = 1) (hs : 1 ≤ size)
+    (hn : nail < 8 * size) (hL : Limbs zl) (htop : TopNZ zl) :
+    mpz_export order size endian nail align zl =
+      (exportCount (8 * size - nail) (val zl), exportBytes order size endian nail (val zl)) := by
+  by_cases hne : zl = []
+  · subst hne
+    have : exportCount (8 * size - nail) 0 = 0 := by
+      unfold exportCount; rw [bitLen_zero]; exact Nat.div_eq_of_lt (by omega)
+    simp [mpz_export, mpz_export_core, exportBytes, this, layout]
+  · have hcnt := sizeinbase2exp_eq hL hne htop (8 * size - nail)
+    have hemp : zl.isEmpty = false := by cases zl <;> simp_all
+    unfold mpz_export mpz_export_core
+    simp only [hemp, Bool.false_eq_true, if_false, hcnt]
+    by_cases hfast : nail = 0 ∧ size = 8 ∧ align = 0
+    · obtain ⟨rfl, rfl, rfl⟩ := hfast
+      have h64 := exportCount64 hL hne htop
+      simp only [Nat.sub_zero, show 8 * 8 = 64 from rfl, h64, List.take_length, and_self, if_true]
+      unfold exportBytes
+      simp only [Nat.sub_zero, show 8 * 8 = 64 from rfl, h64, words64 zl hL]
+      have hbe : (beBytes 8) = fun x => (leBytes 8 x).reverse := rfl
+      rcases ho with rfl | rfl <;> rcases he with rfl | rfl | rfl <;>
+        simp [layout, limbsToBytes, flatMap_eq_flatten_map, List.map_reverse, hbe, List.map_map, Function.comp_def]
+    · simp only [hfast, if_false]
+      have hb : (8 * size - nail) % 8 < 8 := Nat.mod_lt _ (by decide)
+      have hsz : (8 * size - nail) / 8 + (if (8 * size - nail) % 8 ≠ 0 then 1 else 0) ≤ size := by
+        split <;> omega
+      have hinv : XSt.Inv { limb := 0, lbits := 0, zp := zl } := ⟨by simp, hL⟩
+      have hR : XSt.R { limb := 0, lbits := 0, zp := zl } = val zl := by simp [XSt.R]
+      rw [exportWords_spec size _ _ hb hsz _ _ hinv, hR]
+      have hnumb : 8 * ((8 * size - nail) / 8) + (8 * size - nail) % 8 = 8 * size - nail := Nat.div_add_mod _ 8
+      rw [hnumb]
+      rfl
+
+/-! ### export followed by import, at the level of the specs -/
+
+theorem chunks_flatten (size : Nat) : ∀ (L : List (List Nat)), (∀ w ∈ L, w.length = size) →
+    chunks size L.length L.flatten = L := by
+  intro L
+  induction L with
+  | nil => intro _; rfl
+  | cons w L ih =>
+    intro h
+    have hw : w.length = size := h w (by simp)
+    have hL : ∀ v ∈ L, v.length = size := fun v hv => h v (by simp [hv])
+    simp only [List.length_cons, chunks, List.flatten_cons]
+    rw [List.take_append_of_le_length (by omega), List.take_of_length_le (by omega),
+      List.drop_append_of_le_length (by omega), List.drop_of_length_le (by omega), List.nil_append, ih hL]
+
+theorem unlayout_layout (order endian : Int) (size : Nat) (ws : List (List Nat))
+    (h : ∀ w ∈ ws, w.length = size) :
+    unlayout order endian size ws.length (layout order endian ws) = ws := by
+  unfold unlayout layout
+  set f : List Nat → List Nat := fun w => if endian ≥ 0 then w.reverse else w with hf
+  have hff : ∀ w, f (f w) = w := by intro w; simp only [hf]; split <;> simp
+  have hfl : ∀ w, (f w).length = w.length := by intro w; simp only [hf]; split <;> simp
+  have hmap : ∀ w ∈ ws.map f, w.length = size := by
+    intro w hw; rw [List.mem_map] at hw; obtain ⟨v, hv, rfl⟩ := hw; rw [hfl]; exact h v hv
+  by_cases ho : order ≥ 0
+  · simp only [ho, if_true]
+    have hl : (ws.map f).reverse.length = ws.length := by simp
+    have := chunks_flatten size (ws.map f).reverse (by intro w hw; exact hmap w (by simpa using hw))
+    rw [hl] at this
+    rw [this, List.reverse_reverse, List.map_map]
+    conv_rhs => rw [← List.map_id ws]
+    apply List.map_congr_left; intro w _; exact hff w
+  · simp only [ho, if_false]
+    have hl : (ws.map f).length = ws.length := by simp
+    have := chunks_flatten size (ws.map f) hmap
+    rw [hl] at this
+    rw [this, List.map_map]
+    conv_rhs => rw [← List.map_id ws]
+    apply List.map_congr_left; intro w _; exact hff w
+
+theorem wordOf_lt (numb x i : Nat) : wordOf numb x i < 2 ^ numb := Nat.mod_lt _ (pow_pos (by decide) _)
+
+theorem sum_words (numb size : Nat) (hns : 2 ^ numb ≤ 256 ^ size) (c : Nat) : ∀ x : Nat,
+    ((List.range c).map (fun i => leBytes size (wordOf numb x i))).foldr
+      (fun w acc => leVal w % 2 ^ numb + 2 ^ numb * acc) 0 = x % 2 ^ (numb * c) := by
+  induction c with
+  | zero => intro x; simp [Nat.mod_one]
+  | succ c ih =>
+    intro x
+    rw [List.range_succ_eq_map, List.map_cons, List.map_map, List.foldr_cons]
+    have hcong : (List.map ((fun i => leBytes size (wordOf numb x i)) ∘ Nat.succ) (List.range c))
+        = (List.range c).map (fun i => leBytes size (wordOf numb (x / 2 ^ numb) i)) := by
+      apply List.map_congr_left; intro i _; simp [wordOf_succ]
+    rw [hcong, ih, leVal_leBytes, wordOf_zero]
+    have h1 : x % 2 ^ numb % 256 ^ size = x % 2 ^ numb :=
+      Nat.mod_eq_of_lt (lt_of_lt_of_le (Nat.mod_lt _ (pow_pos (by decide) _)) hns)
+    rw [h1, Nat.mod_mod, Nat.mul_succ, pow_add, Nat.mul_comm (2 ^ (numb * c)), Nat.mod_mul]
+
+theorem lt_pow_count (numb x : Nat) (hn : 0 < numb) : x < 2 ^ (numb * exportCount numb x) := by
+  apply bitLen_le_iff.mp
+  unfold exportCount
+  have h1 := Nat.div_add_mod (bitLen x + numb - 1) numb
+  have h2 := Nat.mod_lt (bitLen x + numb - 1) hn
+  generalize numb * ((bitLen x + numb - 1) / numb) = P at *
+  omega
+
+theorem numb_le (size nail : Nat) : 2 ^ (8 * size - nail) ≤ 256 ^ size := by
+  rw [show (256 : Nat) = 2 ^ 8 by norm_num, ← pow_mul]
+  exact Nat.pow_le_pow_right (by decide) (by omega)
+
+theorem exportBytes_words (order endian : Int) (size nail x : Nat) :
+    unlayout order (if endian = 0 then -1 else endian) size (exportCount (8 * size - nail) x)
+      (exportBytes order size endian nail x)
+    = (List.range (exportCount (8 * size - nail) x)).map (fun i => leBytes size (wordOf (8 * size - nail) x i)) := by
+  unfold exportBytes
+  have := unlayout_layout order (if endian = 0 then -1 else endian) size
+    ((List.range (exportCount (8 * size - nail) x)).map (fun i => leBytes size (wordOf (8 * size - nail) x i)))
+    (by intro w hw; rw [List.mem_map] at hw; obtain ⟨i, _, rfl⟩ := hw; simp)
+  simpa using this
+
+theorem import_export_value (order endian : Int) (size nail x : Nat) (hn : nail < 8 * size) :
+    importValue order size endian nail (exportCount (8 * size - nail) x) (exportBytes order size endian nail x) = x := by
+  unfold importValue
+  simp only
+  rw [exportBytes_words, sum_words _ _ (numb_le size nail)]
+  exact Nat.mod_eq_of_lt (lt_pow_count _ _ (by omega))
+
+/-! ### import: the ACCUMULATE accumulator -/
+
+/-- value assembled so far -/
+def ASt.A (s : ASt) : Nat := val s.out.reverse + B ^ s.out.length * s.limb
+/-- bits consumed so far -/
+def ASt.T (s : ASt) : Nat := 64 * s.out.length + s.lbits
+def ASt.Inv (s : ASt) : Prop := s.limb < 2 ^ s.lbits ∧ s.lbits < 64 ∧ Limbs s.out
+
+theorem accumulate_spec {N : Nat} (hN8 : N ≤ 8) {byte : Nat} (hb : byte < 2 ^ N) (s : ASt) (h : s.Inv) :
+    (accumulate N byte s).A = s.A + byte * 2 ^ s.T ∧ (accumulate N byte s).T = s.T + N ∧
+    (accumulate N byte s).Inv := by
+  obtain ⟨hl, hl64, hout⟩ := h
+  set l := s.lbits with hll
+  set k := s.out.length with hk
+  have hsplit : (2 : Nat) ^ 64 = 2 ^ (64 - l) * 2 ^ l := by rw [← pow_add]; congr 1; omega
+  have hor : s.limb ||| (byte <<< l) % B = s.limb + (byte % 2 ^ (64 - l)) * 2 ^ l := by
+    rw [shl_mod_B (by omega)]; exact or_shift_eq_add hl
+  have hBk : B ^ k * 2 ^ l = 2 ^ (64 * k + l) := by rw [B_eq_2, ← pow_mul, ← pow_add]
+  unfold accumulate
+  by_cases hc : l + N ≥ 64
+  · simp only [← hll, hc, if_true, hor]
+    obtain ⟨j, hj⟩ : ∃ j, l + N = 64 + j := ⟨l + N - 64, by omega⟩
+    have hNj : N - (l + N - 64) = 64 - l := by omega
+    have hpN : 2 ^ N = 2 ^ (64 - l) * 2 ^ j := by rw [← pow_add]; congr 1; omega
+    have hq : byte / 2 ^ (64 - l) < 2 ^ j := by
+      rw [Nat.div_lt_iff_lt_mul (pow_pos (by decide) _), Nat.mul_comm, ← hpN]; exact hb
+    have hlow : s.limb + byte % 2 ^ (64 - l) * 2 ^ l < B := by
+      have h1 := Nat.mod_lt byte (pow_pos (by decide : 0 < 2) (64 - l))
+      have h2 : (byte % 2 ^ (64 - l) + 1) * 2 ^ l ≤ 2 ^ (64 - l) * 2 ^ l := Nat.mul_le_mul_right _ h1
+      rw [B_eq_2, hsplit]; nlinarith
+    refine ⟨?_, ?_, ?_, by simp only; omega, Limbs_cons.mpr ⟨hlow, hout⟩⟩
+    · simp only [ASt.A, ASt.T, List.reverse_cons, val_snoc, List.length_reverse, List.length_cons, ← hk, ← hll,
+        Nat.shiftRight_eq_div_pow, hNj]
+      have hd := Nat.mod_add_div byte (2 ^ (64 - l))
+      have hB : B = 2 ^ (64 - l) * 2 ^ l := by rw [B_eq_2, hsplit]
+      rw [← hBk, pow_succ]
+      calc val s.out.reverse + B ^ k * (s.limb + byte % 2 ^ (64 - l) * 2 ^ l) + B ^ k * B * (byte / 2 ^ (64 - l))
+          = val s.out.reverse + B ^ k * s.limb
+            + B ^ k * ((byte % 2 ^ (64 - l) + 2 ^ (64 - l) * (byte / 2 ^ (64 - l))) * 2 ^ l) := by rw [hB]; ring
+        _ = _ := by rw [hd]; ring
+    · simp only [ASt.T, List.length_cons, ← hk, ← hll]; omega
+    · simp only [Nat.shiftRight_eq_div_pow, hNj]
+      have : l + N - 64 = j := by omega
+      rw [this]; exact hq
+  · simp only [← hll, hc, if_false, hor]
+    have hlt : l + N < 64 := by omega
+    have hbm : byte % 2 ^ (64 - l) = byte :=
+      Nat.mod_eq_of_lt (lt_of_lt_of_le hb (Nat.pow_le_pow_right (by decide) (by omega)))
+    rw [hbm]
+    refine ⟨?_, ?_, ?_, by simp only; omega, hout⟩
+    · simp only [ASt.A, ASt.T, ← hk, ← hll]; rw [← hBk]; ring
+    · simp only [ASt.T, ← hk]; omega
+    · simp only
+      rw [pow_add]
+      have : (byte + 1) * 2 ^ l ≤ 2 ^ N * 2 ^ l := Nat.mul_le_mul_right _ hb
+      nlinarith
+
+theorem foldl_acc8 : ∀ (bs : List Nat), Bytes bs → ∀ (s : ASt), s.Inv →
+    (bs.foldl (fun s byte => accumulate 8 byte s) s).A = s.A + leVal bs * 2 ^ s.T ∧
+    (bs.foldl (fun s byte => accumulate 8 byte s) s).T = s.T + 8 * bs.length ∧
+    (bs.foldl (fun s byte => accumulate 8 byte s) s).Inv := by
+  intro bs
+  induction bs with
+  | nil => intro _ s h; simp [h]
+  | cons b bs ih =>
+    intro hb s h
+    obtain ⟨hb0, hbs⟩ := Bytes_cons.mp hb
+    obtain ⟨e1, e2, e3⟩ := accumulate_spec (N := 8) (by decide) (by norm_num; exact hb0) s h
+    obtain ⟨f1, f2, f3⟩ := ih hbs _ e3
+    rw [List.foldl_cons]
+    refine ⟨?_, ?_, f3⟩
+    · rw [f1, e1, e2, leVal_cons, pow_add]; ring
+    · rw [f2, e2, List.length_cons]; ring
+
+/-- value of the data bits of one word -/
+theorem word_value (w : List Nat) (wb b : Nat) (hb : b < 8) (hw : wb ≤ w.length) (hB : Bytes w) :
+    leVal w % 2 ^ (8 * wb + b) = leVal (w.take wb) + 256 ^ wb * (w.getD wb 0 % 2 ^ b) := by
+  have hp : 2 ^ (8 * wb + b) = 256 ^ wb * 2 ^ b := by rw [pow_add, pow_mul]; norm_num
+  have hsplit : leVal w = leVal (w.take wb) + 256 ^ wb * leVal (w.drop wb) := by
+    conv_lhs => rw [← List.take_append_drop wb w, leVal_append]
+    simp [Nat.min_eq_left hw]
+  have hlt : leVal (w.take wb) < 256 ^ wb := by
+    have := leVal_lt (Bytes_take hB wb); simpa [Nat.min_eq_left hw] using this
+  rw [hp, Nat.mod_mul, hsplit, Nat.add_mul_mod_self_left, Nat.mod_eq_of_lt hlt,
+    Nat.add_mul_div_left _ _ (pow_pos (by decide) _), Nat.div_eq_of_lt hlt, Nat.zero_add]
+  congr 2
+  cases hd : w.drop wb with
+  | nil =>
+    have : w.length ≤ wb := by
+      have := congrArg List.length hd; simp at this; omega
+    simp [List.getD_eq_getElem?_getD, List.getElem?_eq_none this]
+  | cons x t =>
+    have hx : w.getD wb 0 = x := by
+      have : w[wb]? = some x := by
+        have := congrArg (fun l => l[0]?) hd
+        simpa using this
+      simp [List.getD_eq_getElem?_getD, this]
+    rw [hx, leVal_cons]
+    have h256 : 256 = 2 ^ b * 2 ^ (8 - b) := by
+      rw [← pow_add, show b + (8 - b) = 8 by omega]; norm_num
+    rw [h256, Nat.mul_assoc, Nat.add_mul_mod_self_left]
+
+theorem importWord_spec (wbytes wbits : Nat) (hb : wbits < 8) (w : List Nat) (hB : Bytes w)
+    (hw : wbytes + (if wbits ≠ 0 then 1 else 0) ≤ w.length) (s : ASt) (h : s.Inv) :
+    (importWord wbytes wbits w s).A = s.A + (leVal w % 2 ^ (8 * wbytes + wbits)) * 2 ^ s.T ∧
+    (importWord wbytes wbits w s).T = s.T + (8 * wbytes + wbits) ∧ (importWord wbytes wbits w s).Inv := by
+  have hwl : wbytes ≤ w.length := by omega
+  obtain ⟨e1, e2, e3⟩ := foldl_acc8 (w.take wbytes) (Bytes_take hB _) s h
+  have htl : (w.take wbytes).length = wbytes := by simp [Nat.min_eq_left hwl]
+  have hv := word_value w wbytes wbits hb hwl hB
+  unfold importWord
+  by_cases hb0 : wbits = 0
+  · subst hb0
+    simp only [ne_eq, not_true_eq_false, if_false]
+    refine ⟨?_, by rw [e2, htl]; ring, e3⟩
+    rw [e1, hv]; simp [Nat.mod_one]
+  · simp only [hb0, ne_eq, not_false_eq_true, if_true]
+    obtain ⟨g1, g2, g3⟩ := accumulate_spec (N := wbits) (by omega)
+      (Nat.mod_lt _ (pow_pos (by decide) _) : w.getD wbytes 0 % 2 ^ wbits < 2 ^ wbits) _ e3
+    refine ⟨?_, by rw [g2, e2, htl]; ring, g3⟩
+    rw [g1, e1, e2, hv, htl, pow_add, pow_mul]; norm_num; ring
+
+theorem importWords_spec (wbytes wbits size : Nat) (hb : wbits < 8)
+    (hs : wbytes + (if wbits ≠ 0 then 1 else 0) ≤ size) : ∀ (ws : List (List Nat)),
+    (∀ w ∈ ws, Bytes w ∧ w.length = size) → ∀ (s : ASt), s.Inv →
+    (ws.foldl (fun s w => importWord wbytes wbits w s) s).A
+      = s.A + 2 ^ s.T * ws.foldr (fun w acc => leVal w % 2 ^ (8 * wbytes + wbits) + 2 ^ (8 * wbytes + wbits) * acc) 0 ∧
+    (ws.foldl (fun s w => importWord wbytes wbits w s) s).T = s.T + (8 * wbytes + wbits) * ws.length ∧
+    (ws.foldl (fun s w => importWord wbytes wbits w s) s).Inv := by
+  intro ws
+  induction ws with
+  | nil => intro _ s h; simp [h]
+  | cons w ws ih =>
+    intro hws s h
+    obtain ⟨hwB, hwl⟩ := hws w (by simp)
+    obtain ⟨e1, e2, e3⟩ := importWord_spec wbytes wbits hb w hwB (by omega) s h
+    obtain ⟨f1, f2, f3⟩ := ih (fun v hv => hws v (by simp [hv])) _ e3
+    rw [List.foldl_cons, List.foldr_cons]
+    refine ⟨?_, ?_, f3⟩
+    · rw [f1, e1, e2, pow_add]; ring
+    · rw [f2, e2, List.length_cons]; ring
+
+/-! ### import: the whole function -/
+
+theorem chunks_spec (size : Nat) : ∀ (c : Nat) (l : List Nat), Bytes l → l.length = c * size →
+    (chunks size c l).length = c ∧ ∀ w ∈ chunks size c l, Bytes w ∧ w.length = size := by
+  intro c
+  induction c with
+  | zero => intro l _ _; simp [chunks]
+  | succ c ih =>
+    intro l hb hl
+    have hd : (l.drop size).length = c * size := by simp [hl]; ring_nf; omega
+    obtain ⟨i1, i2⟩ := ih (l.drop size) (Bytes_drop hb _) hd
+    simp only [chunks, List.length_cons, i1, List.mem_cons, true_and]
+    intro w hw
+    rcases hw with rfl | hw
+    · refine ⟨Bytes_take hb _, ?_⟩
+      simp [hl]; ring_nf; omega
+    · exact i2 w hw
+
+theorem unlayout_spec (order endian : Int) (size count : Nat) (data : List Nat) (hb : Bytes data)
+    (hl : data.length = count * size) :
+    (unlayout order endian size count data).length = count ∧
+    ∀ w ∈ unlayout order endian size count data, Bytes w ∧ w.length = size := by
+  obtain ⟨c1, c2⟩ := chunks_spec size count data hb hl
+  unfold unlayout
+  constructor
+  · simp only [List.length_map]; split <;> simp [c1]
+  · intro w hw
+    simp only [List.mem_map] at hw
+    obtain ⟨v, hv, rfl⟩ := hw
+    have hv' : v ∈ chunks size count data := by split at hv <;> simpa using hv
+    obtain ⟨b1, b2⟩ := c2 v hv'
+    split
+    · exact ⟨Bytes_reverse.mpr b1, by simpa using b2⟩
+    · exact ⟨b1, b2⟩
+
+theorem bytesToLimbs_chunks : ∀ (c : Nat) (l : List Nat), l.length = 8 * c →
+    bytesToLimbs l = (chunks 8 c l).map leVal := by
+  intro c
+  induction c with
+  | zero => intro l hl; have : l = [] := List.eq_nil_of_length_eq_zero (by omega); subst this; simp [bytesToLimbs_nil, chunks]
+  | succ c ih =>
+    intro l hl
+    have h8 : (l.take 8).length = 8 := by simp; omega
+    have hd : (l.drop 8).length = 8 * c := by simp; omega
+    conv_lhs => rw [← List.take_append_drop 8 l, bytesToLimbs_append8 h8]
+    simp [chunks, ih _ hd]
+
+theorem foldr_val64 : ∀ (ws : List (List Nat)), (∀ w ∈ ws, Bytes w ∧ w.length = 8) →
+    ws.foldr (fun w acc => leVal w % 2 ^ 64 + 2 ^ 64 * acc) 0 = val (ws.map leVal) := by
+  intro ws
+  induction ws with
+  | nil => intro _; rfl
+  | cons w ws ih =>
+    intro h
+    obtain ⟨hb, hl⟩ := h w (by simp)
+    have hlt : leVal w < 2 ^ 64 := by
+      have := leVal_lt hb; rw [hl] at this; norm_num at this ⊢; exact this
+    rw [List.foldr_cons, ih (fun v hv => h v (by simp [hv])), List.map_cons, val_cons, Nat.mod_eq_of_lt hlt, B_eq_2]
+
+theorem map_leVal_reverse_eq_bswap : ∀ (ws : List (List Nat)), (∀ w ∈ ws, Bytes w ∧ w.length = 8) →
+    (ws.map (fun w => w.reverse)).map leVal = (ws.map leVal).map bswap := by
+  intro ws h
+  rw [List.map_map, List.map_map]
+  apply List.map_congr_left
+  intro w hw
+  obtain ⟨hb, hl⟩ := h w hw
+  simp only [Function.comp]
+  rw [bswap_leVal hl hb]; rfl
+
+/-- `mpz_import`: the result is the documented sum of the data bits of the words, as a normalised
+    limb vector -/
+theorem mpz_import_spec (count : Nat) (order : Int) (size : Nat) (endian : Int) (nail align : Nat)
+    (data : List Nat) (ho : order = 1 ∨ order = -1) (he : endian = -1 ∨ endian = 0 ∨ endian = 1)
+    (hs : 1 ≤ size) (hn : nail < 8 * size) (hb : Bytes data) (hl : data.length = count * size) :
+    val (mpz_import count order size endian nail align data) = importValue order size endian nail count data ∧
+    Limbs (mpz_import count order size endian nail align data) ∧
+    TopNZ (mpz_import count order size endian nail align data) := by
+  -- it suffices to describe the limbs before normalisation
+  suffices hzp : ∀ zp : List Nat, mpz_import count order size endian nail align data
+      = normalize (zp.take ((count * (8 * size - nail) + 63) / 64)) →
+      Limbs zp → val (zp.take ((count * (8 * size - nail) + 63) / 64)) = importValue order size endian nail count data →
+      val (mpz_import count order size endian nail align data) = importValue order size endian nail count data ∧
+      Limbs (mpz_import count order size endian nail align data) ∧
+      TopNZ (mpz_import count order size endian nail align data) by
+    set e' : Int := if endian = 0 then -1 else endian with he'
+    have hee : e' = -1 ∨ e' = 1 := by rcases he with rfl | rfl | rfl <;> simp [he']
+    obtain ⟨u1, u2⟩ := unlayout_spec order e' size count data hb hl
+    by_cases hfast : nail = 0 ∧ size = 8 ∧ align = 0 ∧ ¬ (order = 1 ∧ e' = 1)
+    · -- the three whole-limb fast paths
+      obtain ⟨rfl, rfl, rfl, hne⟩ := hfast
+      have hl8 : data.length = 8 * count := by omega
+      have htk : data.take (8 * count) = data := List.take_of_length_le (by omega)
+      have hbl := bytesToLimbs_length count data hl8
+      have hz : (count * (8 * 8 - 0) + 63) / 64 = count := by omega
+      have hbL := Limbs_bytesToLimbs count data hl8 hb
+      have hiv : importValue order 8 endian 0 count data
+          = val ((unlayout order e' 8 count data).map leVal) := by
+        unfold importValue; simp only [← he']; exact foldr_val64 _ u2
+      obtain ⟨c1, c2⟩ := chunks_spec 8 count data hb hl
+      rcases ho with rfl | rfl <;> rcases hee with hE | hE
+      · -- order 1, endian -1: MPN_REVERSE
+        apply hzp (bytesToLimbs data).reverse
+        · simp [mpz_import, mpz_import_core, ← he', hE, htk]
+        · exact Limbs_reverse.mpr hbL
+        · rw [hz, List.take_of_length_le (by simp [hbl]), hiv, hE]
+          simp [unlayout, bytesToLimbs_chunks count data hl8, List.map_reverse]
+      · exact absurd ⟨rfl, hE⟩ hne
+      · -- order -1, endian -1: MPN_COPY
+        apply hzp (bytesToLimbs data)
+        · simp [mpz_import, mpz_import_core, ← he', hE, htk]
+        · exact hbL
+        · rw [hz, List.take_of_length_le (by simp [hbl]), hiv, hE]
+          simp [unlayout, bytesToLimbs_chunks count data hl8]
+      · -- order -1, endian 1: MPN_BSWAP
+        apply hzp ((bytesToLimbs data).map bswap)
+        · simp [mpz_import, mpz_import_core, ← he', hE, htk]
+        · exact Limbs_map_bswap _
+        · rw [hz, List.take_of_length_le (by simp [hbl]), hiv, hE]
+          simp only [unlayout, show ¬ ((-1 : Int) ≥ 0) by decide, if_false, show ((1 : Int) ≥ 0) by decide, if_true]
+          rw [map_leVal_reverse_eq_bswap _ c2, bytesToLimbs_chunks count data hl8]
+    · -- the generic loop
+      have hbit : (8 * size - nail) % 8 < 8 := Nat.mod_lt _ (by decide)
+      have hsz : (8 * size - nail) / 8 + (if (8 * size - nail) % 8 ≠ 0 then 1 else 0) ≤ size := by
+        split <;> omega
+      have hnumb : 8 * ((8 * size - nail) / 8) + (8 * size - nail) % 8 = 8 * size - nail := Nat.div_add_mod _ 8
+      have hinv0 : ASt.Inv { limb := 0, lbits := 0, out := [] } := ⟨by simp, by simp, Limbs_nil⟩
+      obtain ⟨f1, f2, f3⟩ := importWords_spec _ _ size hbit hsz (unlayout order e' size count data) u2 _ hinv0
+      rw [hnumb] at f1 f2
+      rw [u1] at f2
+      set st := (unlayout order e' size count data).foldl
+        (fun s w => importWord ((8 * size - nail) / 8) ((8 * size - nail) % 8) w s) { limb := 0, lbits := 0, out := [] }
+        with hst
+      obtain ⟨i1, i2, i3⟩ := f3
+      simp only [ASt.A, ASt.T, List.reverse_nil, val_nil, List.length_nil, pow_zero, Nat.mul_zero, Nat.zero_add,
+        Nat.one_mul, Nat.add_zero] at f1 f2
+      have hval : val (if st.lbits ≠ 0 then st.limb :: st.out else st.out).reverse
+          = importValue order size endian nail count data := by
+        unfold importValue; simp only [← he']; rw [← f1]
+        split
+        · rw [List.reverse_cons, val_snoc, List.length_reverse]
+        · have : st.limb = 0 := by
+            have h0 : st.lbits = 0 := by omega
+            rw [h0] at i1; simpa using i1
+          rw [this]; simp
+      have hlen : (if st.lbits ≠ 0 then st.limb :: st.out else st.out).reverse.length
+          = (count * (8 * size - nail) + 63) / 64 := by
+        rw [Nat.mul_comm count, ← f2]; split <;> simp <;> omega
+      apply hzp (if st.lbits ≠ 0 then st.limb :: st.out else st.out).reverse
+      · unfold mpz_import mpz_import_core
+        have hnf : ¬ (nail = 0 ∧ size = 8 ∧ align = 0 ∧ order = -1 ∧ e' = -1) := by
+          intro h; apply hfast; obtain ⟨a, b, c, d, e⟩ := h; exact ⟨a, b, c, by omega⟩
+        have hnf2 : ¬ (nail = 0 ∧ size = 8 ∧ align = 0 ∧ order = -1 ∧ e' = 1) := by
+          intro h; apply hfast; obtain ⟨a, b, c, d, e⟩ := h; exact ⟨a, b, c, by omega⟩
+        have hnf3 : ¬ (nail = 0 ∧ size = 8 ∧ align = 0 ∧ order = 1 ∧ e' = -1) := by
+          intro h; apply hfast; obtain ⟨a, b, c, d, e⟩ := h; exact ⟨a, b, c, by omega⟩
+        simp only [← he', hnf, hnf2, hnf3, if_false, Bool.false_eq_true, ← hst]
+      · apply Limbs_reverse.mpr
+        split
+        · refine Limbs_cons.mpr ⟨?_, i3⟩
+          exact lt_of_lt_of_le i1 (by rw [B_eq_2]; exact Nat.pow_le_pow_right (by decide) (by omega))
+        · exact i3
+      · rw [← hlen, List.take_length, hval]
+  intro zp hdef hL hv
+  rw [hdef]
+  refine ⟨by rw [val_normalize, hv], Limbs_normalize (Limbs_take hL _), ?_⟩
+  obtain ⟨_, _, ht⟩ := normalize_spec (zp.take ((count * (8 * size - nail) + 63) / 64))
+  exact ht
+
+
+/-! ### shape of the exported byte string -/
+
+theorem flatten_length_const (size : Nat) : ∀ (L : List (List Nat)), (∀ w ∈ L, w.length = size) →
+    L.flatten.length = L.length * size := by
+  intro L
+  induction L with
+  | nil => intro _; simp
+  | cons w L ih =>
+    intro h
+    rw [List.flatten_cons, List.length_append, ih (fun v hv => h v (by simp [hv])), h w (by simp), List.length_cons]
+    ring
+
+theorem Bytes_flatten : ∀ (L : List (List Nat)), (∀ w ∈ L, Bytes w) → Bytes L.flatten := by
+  intro L
+  induction L with
+  | nil => intro _; exact Bytes_nil
+  | cons w L ih =>
+    intro h
+    rw [List.flatten_cons]
+    exact Bytes_append.mpr ⟨h w (by simp), ih (fun v hv => h v (by simp [hv]))⟩
+
+theorem layout_shape (order endian : Int) (size : Nat) (ws : List (List Nat))
+    (h : ∀ w ∈ ws, Bytes w ∧ w.length = size) :
+    (layout order endian ws).length = ws.length * size ∧ Bytes (layout order endian ws) := by
+  unfold layout
+  have hm : ∀ w ∈ ws.map (fun w => if endian ≥ 0 then w.reverse else w), Bytes w ∧ w.length = size := by
+    intro w hw; rw [List.mem_map] at hw; obtain ⟨v, hv, rfl⟩ := hw
+    obtain ⟨b1, b2⟩ := h v hv
+    split
+    · exact ⟨Bytes_reverse.mpr b1, by simpa using b2⟩
+    · exact ⟨b1, b2⟩
+  simp only
+  generalize hws' : ws.map (fun w => if endian ≥ 0 then w.reverse else w) = ws' at hm
+  have hlen : ws'.length = ws.length := by rw [← hws']; simp
+  by_cases ho : order ≥ 0
+  · simp only [ho, if_true]
+    refine ⟨?_, Bytes_flatten _ (fun w hw => (hm w (by simpa using hw)).1)⟩
+    rw [flatten_length_const size _ (fun w hw => (hm w (by simpa using hw)).2)]; simp [hlen]
+  · simp only [ho, if_false]
+    refine ⟨?_, Bytes_flatten _ (fun w hw => (hm w hw).1)⟩
+    rw [flatten_length_const size _ (fun w hw => (hm w hw).2), hlen]
+
+theorem exportBytes_shape (order endian : Int) (size nail x : Nat) :
+    (exportBytes order size endian nail x).length = exportCount (8 * size - nail) x * size ∧
+    Bytes (exportBytes order size endian nail x) := by
+  unfold exportBytes
+  have := layout_shape order (if endian = 0 then -1 else endian) size
+    ((List.range (exportCount (8 * size - nail) x)).map (fun i => leBytes size (wordOf (8 * size - nail) x i)))
+    (by intro w hw; rw [List.mem_map] at hw; obtain ⟨i, _, rfl⟩ := hw; exact ⟨leBytes_bytes _ _, by simp⟩)
+  simpa using this
+
+theorem ofU8_toU8 {l : List Nat} (h : Bytes l) : ofU8 (toU8 l) = l := by
+  unfold ofU8 toU8
+  rw [List.map_map]
+  conv_rhs => rw [← List.map_id l]
+  apply List.map_congr_left
+  intro b hb
+  have := h b hb
+  simp [Function.comp, UInt8.toNat_ofNat']
+  omega
+
+
+/-- a normalised limb vector is determined by its value -/
+theorem normalized_unique : ∀ {a b : List Nat}, Limbs a → TopNZ a → Limbs b → TopNZ b → val a = val b → a = b := by
+  intro a
+  induction a with
+  | nil =>
+    intro b _ _ hb tb h
+    cases b with
+    | nil => rfl
+    | cons y ys =>
+      exfalso
+      -- val (y :: ys) = 0 forces all limbs 0, contradicting the non-zero top limb
+      have hne : (y :: ys) ≠ [] := by simp
+      obtain ⟨init, hi⟩ := exists_snoc_of_getLastD hne
+      have ht := tb hne
+      rw [hi, val_snoc] at h
+      simp only [val_nil] at h
+      have : 0 < B ^ init.length * (y :: ys).getLastD 0 :=
+        Nat.mul_pos (pow_pos B_pos _) (Nat.pos_of_ne_zero ht)
+      omega
+  | cons x xs ih =>
+    intro b ha ta hb tb h
+    cases b with
+    | nil =>
+      exfalso
+      have hne : (x :: xs) ≠ [] := by simp
+      obtain ⟨init, hi⟩ := exists_snoc_of_getLastD hne
+      have ht := ta hne
+      rw [hi, val_snoc] at h
+      simp only [val_nil] at h
+      have : 0 < B ^ init.length * (x :: xs).getLastD 0 :=
+        Nat.mul_pos (pow_pos B_pos _) (Nat.pos_of_ne_zero ht)
+      omega
+    | cons y ys =>
+      obtain ⟨hx, hxs⟩ := Limbs_cons.mp ha
+      obtain ⟨hy, hys⟩ := Limbs_cons.mp hb
+      simp only [val_cons] at h
+      have e1 : x = y := by
+        have := congrArg (· % B) h
+        simp only [Nat.add_mul_mod_self_left] at this
+        rwa [Nat.mod_eq_of_lt hx, Nat.mod_eq_of_lt hy] at this
+      have e2 : val xs = val ys := by
+        subst e1
+        have : B * val xs = B * val ys := by omega
+        exact Nat.eq_of_mul_eq_mul_left B_pos this
+      have txs : TopNZ xs := by
+        intro hne
+        have := ta (by simp)
+        cases xs with
+        | nil => exact absurd rfl hne
+        | cons a as => rw [List.getLastD_cons, List.getLastD_cons] at this; rw [List.getLastD_cons]; exact this
+      have tys : TopNZ ys := by
+        intro hne
+        have := tb (by simp)
+        cases ys with
+        | nil => exact absurd rfl hne
+        | cons a as => rw [List.getLastD_cons, List.getLastD_cons] at this; rw [List.getLastD_cons]; exact this
+      rw [e1, ih hxs txs hys tys e2]
+
 end Mpir.Io
